@@ -299,6 +299,13 @@ class Fn(object):
             e.tag = tag
             w.raised.setdefault(jsonable(tag).__repr__(), []).append(e)
             raise e
+        if kind == "raiseif":
+            # ["raiseif", fnname, "Fault", else_behaviour]: fault only for the submission whose callable is fnname
+            import models
+            org = models.origin(jsonable(args[0]))
+            if org is not None and org[1] == b[1]:
+                return self._do(["raisearg", b[2]], k, args, kwargs)
+            return self._do(b[3], k, args, kwargs)
         if kind == "futarg":
             import models
             if b[1] == "done":
